@@ -15,6 +15,7 @@ type State struct {
 	ghost map[string]Term
 	ret   []Term
 	site  string
+	pending map[string][]string // heap -> allocation maps of calls that may have written FRESH objects' fields (lazy frame)
 	ndefer int // deferred calls registered when this exit/panic edge was taken
 }
 
@@ -35,6 +36,12 @@ func (s *State) clone() *State {
 		n.ghost[k] = v
 	}
 	n.ret = append([]Term(nil), s.ret...)
+	if len(s.pending) > 0 {
+		n.pending = make(map[string][]string, len(s.pending))
+		for k, v := range s.pending {
+			n.pending[k] = append([]string(nil), v...)
+		}
+	}
 	return n
 }
 
@@ -146,12 +153,45 @@ func (f *FuncCtx) heapTerm(st *State, name, sort string) string {
 		cfail("%s reads the heap (%s); use a macro func instead of a pure func", f.curSpec, name)
 	}
 	f.w.ensureHeap(name, sort)
+	if len(st.pending[name]) > 0 {
+		f.materialize(st, name, sort)
+	}
 	if v, ok := st.heap[name]; ok {
 		return v
 	}
 	init := name + "!0"
 	f.declare(init, sort)
 	return init
+}
+
+// materialize turns the pending "only fresh objects were written" marks of a heap array into havoc + frame facts.
+func (f *FuncCtx) materialize(st *State, name, sort string) {
+	pend := st.pending[name]
+	delete(st.pending, name)
+	for _, mark := range pend {
+		guard, al := splitMark(mark)
+		var before string
+		if v, ok := st.heap[name]; ok {
+			before = v
+		} else {
+			before = name + "!0"
+			f.declare(before, sort)
+		}
+		after := f.fresh("fv_"+name, sort)
+		st.heap[name] = after
+		cond := "(or (select " + al + " q!p) (= q!p 0))"
+		if guard != "" {
+			cond = "(or (not " + guard + ") (select " + al + " q!p) (= q!p 0))"
+		}
+		st.assume("(forall ((q!p Int)) (! (=> " + cond + " (= (select " + after + " q!p) (select " + before + " q!p))) :pattern ((select " + after + " q!p))))")
+	}
+}
+
+func splitMark(m string) (guard, al string) {
+	if i := strings.Index(m, "\x00"); i >= 0 {
+		return m[:i], m[i+1:]
+	}
+	return "", m
 }
 
 func (f *FuncCtx) ghostTerm(st *State, name string) Term {
@@ -220,8 +260,10 @@ func (f *FuncCtx) merge(states []*State) *State {
 		L = n
 	}
 	rests := make([][]string, len(ss))
+	var sels []string
 	for i, s := range ss {
 		rests[i] = append([]string(nil), s.pc[L:]...)
+		sels = append(sels, f.fresh("join", SBool))
 	}
 	out := newState()
 	out.pc = append([]string(nil), ss[0].pc[:L]...)
@@ -263,6 +305,59 @@ func (f *FuncCtx) merge(states []*State) *State {
 			rests[i] = append(rests[i], "(= "+c+" "+s.vars[k].S+")")
 		}
 		out.vars[k] = Term{S: c, Sort: t0.Sort, GoT: t0.GoT}
+	}
+	// pending lazy frames: keep when identical in all states, otherwise materialize first
+	pk := map[string]bool{}
+	for _, s := range ss {
+		for k := range s.pending {
+			pk[k] = true
+		}
+	}
+	for k := range pk {
+		// marks are adopted GUARDED by the selector of the branch they come from: on the other branches the heap is unchanged
+		sameHeap := true
+		for _, s := range ss[1:] {
+			if s.heap[k] != ss[0].heap[k] {
+				sameHeap = false
+			}
+		}
+		if sameHeap {
+			// common prefix of marks stays unguarded; the rest is guarded per branch
+			cp := len(ss[0].pending[k])
+			for _, s := range ss[1:] {
+				n := 0
+				for n < cp && n < len(s.pending[k]) && s.pending[k][n] == ss[0].pending[k][n] {
+					n++
+				}
+				cp = n
+			}
+			var merged []string
+			merged = append(merged, ss[0].pending[k][:cp]...)
+			for i, s := range ss {
+				for _, m := range s.pending[k][cp:] {
+					g, al := splitMark(m)
+					if g == "" {
+						g = sels[i]
+					} else {
+						g = "(and " + sels[i] + " " + g + ")"
+					}
+					merged = append(merged, g+"\x00"+al)
+				}
+			}
+			if out.pending == nil {
+				out.pending = map[string][]string{}
+			}
+			out.pending[k] = merged
+			for _, s := range ss {
+				delete(s.pending, k)
+			}
+			continue
+		}
+		for i, s := range ss {
+			n0 := len(s.pc)
+			f.materialize(s, k, f.w.heapSorts[k])
+			rests[i] = append(rests[i], s.pc[n0:]...)
+		}
 	}
 	// heap: union of keys
 	hk := map[string]bool{}
@@ -326,11 +421,20 @@ func (f *FuncCtx) merge(states []*State) *State {
 		}
 		out.ghost[k] = Term{S: c, Sort: t0.Sort, GoT: t0.GoT}
 	}
-	var ds []string
-	for _, r := range rests {
-		ds = append(ds, conj(r))
+	// selector encoding of the join: (or sel_1 .. sel_n) and (sel_i => A) for every fact A of branch i. Equivalent to the
+	// disjunction of the branch conjunctions, but quantified facts stay at top level (solvers cope far better).
+	for i, r := range rests {
+		sel := sels[i]
+		for _, a := range r {
+			if strings.HasPrefix(a, "#tags:") {
+				m := reTagged.FindStringSubmatch(a)
+				out.assume(m[0] + "(=> " + sel + " " + a[len(m[0]):] + ")")
+				continue
+			}
+			out.assume("(=> " + sel + " " + a + ")")
+		}
 	}
-	out.assume("(or " + strings.Join(ds, " ") + ")")
+	out.assume("(or " + strings.Join(sels, " ") + ")")
 	return out
 }
 
